@@ -36,8 +36,8 @@ class A(Adapter):
         base = [cfg("r10c10a3", True, r=10, c=10, a=3, tl=None), cfg("r5c11a2", True, r=5, c=11, a=2, tl=None),
                 cfg("r11c5a3", r=11, c=5, a=3, tl=None), cfg("r5c5a1", r=5, c=5, a=1, tl=None), cfg("r3c7a2", r=3, c=7, a=2, tl=None),
                 # falsy / non-default penalties: 0.0 must be honoured, not replaced by the default
-                cfg("r4c6a2pen0", True, r=4, c=6, a=2, tl=None, penalty=0),  # an int, and falsy: rewards must still be float32
-                cfg("r6c4a1pen2", r=6, c=4, a=1, tl=None, penalty=2.0), cfg("r3c5a2pen0f", r=3, c=5, a=2, tl=None, penalty=0.0)]
+                cfg("r6c4a2pen0", True, r=6, c=4, a=2, tl=None, penalty=0),  # an int, and falsy: rewards must still be float32
+                cfg("r4c6a1pen2", r=4, c=6, a=1, tl=None, penalty=2.0), cfg("r3c5a2pen0f", r=3, c=5, a=2, tl=None, penalty=0.0)]
         return cross_tl(base, [None, 1, 2, 3, 7])
 
     def build(self, c):
